@@ -313,6 +313,117 @@ def _evaluate(job):
         return label, "crash", repr(e)[:160]
 
 
+# ------------------------------------------------------------------------------------------------ stored corpus
+def apply_unified_diff(files, diff_text):
+    """Apply a git unified diff to {relpath: source}; returns {relpath: new source} for the touched files (in memory)."""
+    import re
+    out = {}
+    cur = None
+    hunks = []
+    for line in diff_text.split("\n"):
+        if line.startswith("+++ "):
+            path = line[4:].strip()
+            cur = path[2:] if path.startswith("b/") else path
+            out.setdefault(cur, [])
+        elif line.startswith("@@") and cur is not None:
+            m = re.match(r"@@ -(\d+)(?:,(\d+))? \+(\d+)(?:,(\d+))? @@", line)
+            out[cur].append([int(m.group(1)), []])
+        elif cur is not None and out[cur] and (line[:1] in (" ", "+", "-") or line == "") and not line.startswith("--- "):
+            out[cur][-1][1].append(line)
+    res = {}
+    for path, hs in out.items():
+        src = files[path].split("\n")
+        new = []
+        pos = 0
+        for start, lines in hs:
+            new.extend(src[pos:start - 1])
+            pos = start - 1
+            while lines and lines[-1] == "":
+                lines.pop()          # trailing split artefact
+            for l in lines:
+                tag, body = (l[:1] or " "), l[1:]
+                if tag == " ":
+                    if src[pos] != body:
+                        raise ValueError(f"context mismatch in {path} at line {pos + 1}")
+                    new.append(src[pos]); pos += 1
+                elif tag == "-":
+                    if src[pos] != body:
+                        raise ValueError(f"removal mismatch in {path} at line {pos + 1}")
+                    pos += 1
+                elif tag == "+":
+                    new.append(body)
+        new.extend(src[pos:])
+        res[path] = "\n".join(new)
+    return res
+
+
+def _evaluate_variant(job):
+    pid, overrides, label = job
+    from . import props as PROPS
+    from . import integrity
+    try:
+        program = Program(overrides=overrides)
+        ctx = Ctx(program, Contracts(program), "quick", 0)
+        obs = PROPS.get(pid).obligations(ctx)
+        obs = obs + integrity.obligations(ctx, pid)
+        known = load_known(os.path.join(ROOT, "KNOWN_FINDINGS.txt"))
+        viol = [o for o in obs if o.status == "violation" and (pid, o.key) not in known]
+        inc = [o for o in obs if o.status == "inconclusive"]
+        return label, ("violation" if viol else ("inconclusive" if inc else "green")), (viol[0].id if viol else (inc[0].id if inc else ""))
+    except AnalysisError as e:
+        return label, "inconclusive", "analysis-error: " + str(e)[:100]
+    except Exception as e:
+        return label, "crash", repr(e)[:160]
+
+
+def corpus(pid, ctx):
+    """Confirmed seeded defects that target this property must be reported as VIOLATION; stored behaviour-preserving refactorings
+    must leave it green. Variants are built in memory from the current tree (skipped when a patch no longer applies)."""
+    import glob
+    import json
+    files = {m.relpath: m.src for m in ctx.program.modules.values()}
+    jobs = []
+    skipped = []
+    for d in sorted(glob.glob(os.path.join(ROOT, "seeded", "*", "meta.json"))):
+        meta = json.load(open(d))
+        if meta.get("breaks_property") != pid:
+            continue
+        try:
+            ov = apply_unified_diff(files, open(os.path.join(os.path.dirname(d), "patch.diff")).read())
+        except Exception as e:
+            skipped.append(meta["id"] + ": " + str(e)[:60])
+            continue
+        jobs.append((pid, ov, "S|" + meta["id"]))
+    expected_alarm = set()
+    mpath = os.path.join(ROOT, "seeded", "refactorings", "MATRIX.json")
+    if os.path.exists(mpath):
+        expected_alarm = {r["refactoring"] for r in json.load(open(mpath)) if not r["silent"]}
+    for f in sorted(glob.glob(os.path.join(ROOT, "seeded", "refactorings", "*.diff"))):
+        try:
+            ov = apply_unified_diff(files, open(f).read())
+        except Exception as e:
+            skipped.append(os.path.basename(f) + ": " + str(e)[:60])
+            continue
+        jobs.append((pid, ov, "R|" + os.path.basename(f)))
+    if not jobs:
+        return {"obligations": [], "corpus": {"seeds": 0, "refactorings": 0, "skipped": skipped}}
+    with multiprocessing.get_context("fork").Pool(min(16, os.cpu_count() or 4)) as pool:
+        results = pool.map(_evaluate_variant, jobs, chunksize=1)
+    seeds = [r for r in results if r[0].startswith("S|")]
+    refs = [r for r in results if r[0].startswith("R|")]
+    missed = [r for r in seeds if r[1] != "violation"]
+    noisy = [r for r in refs if r[1] != "green" and r[0][2:] not in expected_alarm]
+    obs = [Ob("selftest.seeds", "selftest", f"{len(seeds)} confirmed seeded defects targeting {pid}", "ok" if not missed else "inconclusive",
+              f"{len(seeds) - len(missed)}/{len(seeds)} reported as VIOLATION" + (f"; missed: {[r[0] + ' ' + r[1] for r in missed]}" if missed else "")),
+           Ob("selftest.refactorings", "selftest", f"{len(refs)} stored behaviour-preserving refactorings", "ok" if not noisy else "inconclusive",
+              f"{len([r for r in refs if r[1] == 'green'])}/{len(refs)} leave {pid} green"
+              + (f" (documented residual alarms: {sorted(expected_alarm)})" if expected_alarm else "")
+              + (f"; NEW alarms: {[r[0] + ' ' + r[1] + ' ' + r[2] for r in noisy]}" if noisy else ""))]
+    return {"obligations": obs, "corpus": {"seeds": [f"{r[0]} => {r[1]} {r[2]}" for r in seeds],
+                                            "refactorings_green": len([r for r in refs if r[1] == 'green']), "refactorings": len(refs),
+                                            "skipped": skipped}}
+
+
 def run(pid, ctx, seed):
     program = ctx.program
     rng = random.Random(seed * 7919 + sum(map(ord, pid)))
@@ -370,8 +481,11 @@ def run(pid, ctx, seed):
     obs.append(Ob("selftest.rewrites", "selftest", where, "ok" if not rw_red else "inconclusive",
                   f"{len(rws) - len(rw_red)}/{len(rws)} equivalence-preserving rewrites keep every obligation green"
                   + (f"; NOT silent on: {[r[0] for r in rw_red][:5]}" if rw_red else "")))
+    cor = corpus(pid, ctx)
+    obs = obs + cor.pop("obligations", [])
     return {
         "obligations": obs,
+        "corpus": cor.get("corpus", {}),
         "selftest": {
             "seed": seed, "functions": funcs, "mutation_sites": total_sites, "mutants_run": len(mut), "mutants_invalid": len(invalid),
             "mutants_killed": len(killed), "kill_rate": round(rate, 3),
